@@ -515,6 +515,18 @@ impl OcflStore for FsOcflStore {
         );
 
         if storage_path.exists() {
+            if storage_path.is_dir()
+                && !is_object_root(&storage_path)?
+                && contains_object_root(&storage_path)?
+            {
+                // The ID maps to a directory that is not an object but contains other objects
+                return Err(RocflError::IllegalState(format!(
+                    "Cannot purge object {} because {} is not the root of an object and contains other objects",
+                    object_id,
+                    storage_path.to_string_lossy()
+                )));
+            }
+
             if let Err(e) = fs::remove_dir_all(&storage_path) {
                 return Err(RocflError::CorruptObject {
                     object_id: object_id.to_string(),
@@ -1092,6 +1104,17 @@ fn is_object_root<P: AsRef<Path>>(path: P) -> Result<bool> {
                 .to_str()
                 .map_or(false, |name| name.starts_with(OBJECT_NAMASTE_FILE_PREFIX))
         {
+            return Ok(true);
+        }
+    }
+    Ok(false)
+}
+
+/// Returns true if any directory beneath the path is an OCFL object root
+fn contains_object_root<P: AsRef<Path>>(path: P) -> Result<bool> {
+    for entry in WalkDir::new(path.as_ref()).min_depth(1) {
+        let entry = entry?;
+        if entry.file_type().is_dir() && is_object_root(entry.path())? {
             return Ok(true);
         }
     }
